@@ -892,10 +892,10 @@ def run_check(ctx, prop, props_module, level):
         for exe, name, cases in plan:
             meta = harness_meta(exe)
             dist["flavours"][name] = len(cases)
-            # quick tier: of the pinned streams of 128 KiB only those tagged `fifo-too` go through the (slower) FIFO
-            # engine as well (the index engine provably simulates it: Relay/IndexSim.lean)
+            # of the pinned streams of 128 KiB only those tagged `fifo-too` go through the (slower) FIFO engine as
+            # well (the index engine provably simulates it: Relay/IndexSim.lean); all of them through the index engine
             def slow(c):
-                return quick and "huge" in c.tags and "pinned" in c.tags and "fifo-too" not in c.tags
+                return "huge" in c.tags and "pinned" in c.tags and "fifo-too" not in c.tags
             for part, engines in (([c for c in cases if slow(c)], ("index",)),
                                   ([c for c in cases if not slow(c)], ("index", "fifo"))):
                 if part:
